@@ -1,4 +1,4 @@
-\* AppCfg.tla with the behaviour of the unchanged code: TLC is expected to find counterexamples
+\* AppCfg.tla with the behaviour of the unchanged appcfgmgr.py: TLC is expected to find counterexamples (replayed on the code)
 SPECIFICATION Spec
 CONSTANTS
   Instances = {"a1", "a2"}
